@@ -10,10 +10,13 @@ INV = "DirichletIdentity StencilShape Symmetric RowSumIsMass ConstantSolutionExa
 
 def families(tier, which="ab"):
     """(label, NrSet, NtSet, Sp, NcSet, Period, PaSet); which: subset of family labels used in the quick tier"""
-    if tier == "thorough":
-        return [("a", "{4,5,6}", "{4,8}", "{1,2}", "{0,1,2,3,4,5,6}", 0, "Pa6"),
+    if tier == "thorough":       # sized so that every TLC run ends within minutes (the full cross product of the first draft did not end within the hour)
+        return [("a", "{4,5}", "{4}", "{1,2}", "{0,1,2,3,4,5}", 0, "Pa6"),
+                ("a2", "{5,6}", "{8}", "{1,2}", "{0,2,3,5,6}", 2, "Pa3"),
                 ("b", "{7,9}", "{4,8}", "{1,2}", "{3,4,5}", 2, "Pa3"),
-                ("c", "{5}", "{12}", "{1,3}", "{2}", 2, "Pa3")]
+                ("c", "{5,7}", "{12}", "{1,3}", "{2,3}", 2, "Pa3"),
+                ("e", "{5,7}", "{8}", "{1,2}", "{2,3}", 2, "Pa3"),
+                ("f", "{9,11}", "{4}", "{1,2}", "{5,6,7}", 2, "Pa3")]
     fams = [("a", "{5}", "{4}", "{1,2}", "{0,2,3,5}", 0, "Pa3"),
             ("b", "{7}", "{4,8}", "{1,2}", "{3,4}", 2, "Pa3"),
             ("d", "{7}", "{4}", "{1,2}", "{3}", 2, "Pa3"),          # small family for the right-hand-side discretisation (C01)
